@@ -186,9 +186,41 @@ func (u uField) sfieldCoq() string {
 	return fmt.Sprintf("(mkSF5 %s %s %s %s %s)", bt(u.Name), u.itemCoq(), vh.BoolTerm(u.Required), vh.BoolTerm(u.Optional), bt(u.Desc))
 }
 
+// isTree: an inline object / oneof one of whose fields is again an inline schema, an array or a map
+func (u uField) isTree() bool {
+	if u.Inline != "object" && u.Inline != "oneof" {
+		return false
+	}
+	for _, f := range u.InFields {
+		if f.Inline != "" || f.Container != "" {
+			return true
+		}
+	}
+	return false
+}
+
+var inlineKindCode = map[string]int{"object": 0, "oneof": 1, "enum": 2}
+var containerCode = map[string]int{"": 0, "array": 1, "map": 2}
+
+// tfieldCoq: a field of a tree-form inline schema (Entity.tfield)
+func (u uField) tfieldCoq() string {
+	kind := "(TK " + u.itemCoq() + ")"
+	switch {
+	case u.Inline != "":
+		kind = fmt.Sprintf("(TKInline %d %d %s %s)", inlineKindCode[u.Inline], containerCode[u.Container], coqList(u.InFields, uField.tfieldCoq), coqList(u.InOptions, bt))
+	case u.Container == "array":
+		kind = "(TKArray " + u.itemCoq() + ")"
+	case u.Container == "map":
+		kind = "(TKMap " + u.itemCoq() + ")"
+	}
+	return fmt.Sprintf("(TF %s %s %s %s %s)", bt(u.Name), kind, vh.BoolTerm(u.Required), vh.BoolTerm(u.Optional), bt(u.Desc))
+}
+
 func (u uField) coq() string {
 	kind := fmt.Sprintf("(KScalar %d %s)", u.PType, bt(u.J5Kind))
-	if u.Inline == "object" {
+	if u.isTree() {
+		kind = fmt.Sprintf("(KInlineTree %d %s)", inlineKindCode[u.Inline], coqList(u.InFields, uField.tfieldCoq))
+	} else if u.Inline == "object" {
 		kind = "(KInlineObject " + coqList(u.InFields, uField.sfieldCoq) + ")"
 	} else if u.Inline == "oneof" {
 		kind = "(KInlineOneof " + coqList(u.InFields, uField.sfieldCoq) + ")"
